@@ -35,6 +35,7 @@ def materialise(name, k, spec, invs, base, constraint=True):
     with open(cfgp, "w") as f:
         f.write(f"CONSTANTS\n  Prefix = {ts(k['prefix'])}\n  Src = {ts(k['src'])}\n  SrcRank <- cRank\n  Obs = \"{k['obs']}\"\n"
                 f"  Cls = {ts(k['cls'])}\n  Reject = {ts(k.get('reject', []))}\n  SendMax = {k['sendmax']}\n  MaxChan = {k['maxchan']}\n"
+                f"  OpKinds = {ts(k.get('ops', []))}\n"
                 f"  LidMode = \"{k.get('lid', 'abstract')}\"\n  Dev = {ts(k.get('dev', []))}\n"
                 f"SPECIFICATION {spec}\n" + ("CONSTRAINT ChanBound\n" if constraint else "") +
                 f"INVARIANTS {' '.join(invs)}\nCHECK_DEADLOCK FALSE\n")
@@ -45,8 +46,8 @@ def line(op):
     k = op["k"]
     if k == "announce":
         return f"announce {op['src']} {op['p']} {op['cls']}"
-    if k == "withdraw":
-        return f"withdraw {op['src']} {op['p']}"
+    if k in ("withdraw", "filter"):
+        return f"{k} {op['src']} {op['p']}"
     if k in ("peerdown", "markllgr"):
         return f"{k} {op['src']}"
     return k
@@ -102,11 +103,14 @@ def main(c):
     thorough = c.tier == "thorough"
     devs = known_devs(c)
     designs = [("d1", {"prefix": ["p1", "p2"], "src": ["s1", "o"], "obs": "o", "cls": ["x"], "sendmax": 1, "maxchan": 2}),
-               ("d2", {"prefix": ["p1"], "src": ["s1", "s2", "o"], "obs": "o", "cls": ["x", "y"], "sendmax": 2, "maxchan": 2}),
                # with an export policy that rejects class y: "filtered" and "replaced by a non-exportable best"
-               ("d5", {"prefix": ["p1"], "src": ["s1", "s2", "o"], "obs": "o", "cls": ["x", "y"], "reject": ["y"], "sendmax": 2, "maxchan": 2})]
+               ("d5", {"prefix": ["p1"], "src": ["s1", "s2", "o"], "obs": "o", "cls": ["x", "y"], "reject": ["y"], "sendmax": 2, "maxchan": 2}),
+               # with announcements the IMPORT policy rejects (the path leaves the ranking but keeps destination and path id)
+               ("d8", {"prefix": ["p1"], "src": ["s1", "s2", "o"], "obs": "o", "cls": ["x"], "ops": ["filter"], "sendmax": 2, "maxchan": 2})]
     if thorough:
-        designs += [("d6", {"prefix": ["p1", "p2"], "src": ["s1", "s2"], "obs": "o", "cls": ["x", "y"], "reject": ["y"], "sendmax": 1, "maxchan": 2}),
+        designs += [("d2", {"prefix": ["p1"], "src": ["s1", "s2", "o"], "obs": "o", "cls": ["x", "y"], "sendmax": 2, "maxchan": 2}),
+                    ("d7", {"prefix": ["p1", "p2"], "src": ["s1", "o"], "obs": "o", "cls": ["x"], "ops": ["filter"], "sendmax": 1, "maxchan": 2}),
+                    ("d6", {"prefix": ["p1", "p2"], "src": ["s1", "s2"], "obs": "o", "cls": ["x", "y"], "reject": ["y"], "sendmax": 1, "maxchan": 2}),
                     ("d3", {"prefix": ["p1", "p2"], "src": ["s1", "s2", "o"], "obs": "o", "cls": ["x"], "sendmax": 2, "maxchan": 2}),
                     ("d4", {"prefix": ["p1", "p2"], "src": ["s1", "s2"], "obs": "o", "cls": ["x", "y"], "sendmax": 1, "maxchan": 3})]
     for name, k in designs:
@@ -131,8 +135,8 @@ def main(c):
     # conformance: random behaviours of the as-implemented model on the real pipeline
     walks_cfg = [("w1", {"prefix": ["p1", "p2"], "src": ["s1", "s2", "o"], "obs": "o", "cls": ["x", "y"], "sendmax": 1, "maxchan": 3}),
                  ("w2", {"prefix": ["p1", "p2"], "src": ["s1", "s2", "o"], "obs": "o", "cls": ["x", "y"], "sendmax": 2, "maxchan": 3}),
-                 ("w3", {"prefix": ["p1", "p2"], "src": ["s1", "s2", "o"], "obs": "o", "cls": ["x", "y"], "reject": ["y"], "sendmax": 1, "maxchan": 3}),
-                 ("w4", {"prefix": ["p1", "p2"], "src": ["s1", "s2", "o"], "obs": "o", "cls": ["x", "y"], "reject": ["y"], "sendmax": 2, "maxchan": 3})]
+                 ("w3", {"prefix": ["p1", "p2"], "src": ["s1", "s2", "o"], "obs": "o", "cls": ["x", "y"], "reject": ["y"], "ops": ["filter"], "sendmax": 1, "maxchan": 3}),
+                 ("w4", {"prefix": ["p1", "p2"], "src": ["s1", "s2", "o"], "obs": "o", "cls": ["x", "y"], "reject": ["y"], "ops": ["filter"], "sendmax": 2, "maxchan": 3})]
     nwalks, depth = (1500, 30) if thorough else (500, 25)
     allw = []
     hseqs = []
